@@ -74,6 +74,8 @@ def _alarm(signum, frame):
 def make_scenario(mod, tier, master, idx):
     seed = derive_seed(master, mod.ID, tier, idx)
     rng = Rng(seed)
+    from dsim import gen
+    gen.reset_state()
     cls = rng.weighted([(w, c) for c, w in mod.CLASSES])
     scn = mod.generate(rng, tier, cls)
     scn.update({'property': mod.ID, 'tier': tier, 'master_seed': master,
@@ -229,6 +231,9 @@ def worker_chunk(args):
     if task is not None:
         # an exhaustive / sweep task defined by the property module
         try:
+            from dsim import gen
+            gen.reset_state()
+
             for scn in mod.sweep_scenarios(task):
                 scn.update({'property': pid, 'tier': tier,
                             'master_seed': master, 'class': task['name']})
